@@ -4,9 +4,26 @@ Correspondence: Lean `Batch.window` / `Batch.links` / `Batch.follow` vs the real
 `<dtml-in … start= end= size= orphan= overlap=>` rendering.
 Oracle (independent of the model): the property's own arithmetic evaluated on what the
 real tag displayed.
+
+Input space (every dimension is crossed with the batch parameters):
+  * how a parameter reaches the tag: literal, valueless attribute, variable holding an int, a numeric
+    string (request form value) or a callable returning the int;
+  * what the sequence is: list, tuple, range, collections.UserList, collections.deque, iterator,
+    generator, a user class whose indexes wrap around like a list's (lazy result sets) and one that
+    refuses negative indexes; elements ints, (key, value) pairs, mappings or instances;
+  * which other options of the tag are combined with the batch: reverse, reverse_expr (true / false),
+    sort, sort_expr (ascending / descending), mapping, no_push_item, prefix, skip_unauthorized, and the
+    `next` / `previous` forms of the tag (body rendered once for the neighbouring batch);
+  * what is read: the displayed numbers AND the displayed elements (compared with the window of the
+    sequence ordered by Python), the -number / -index / -size spellings of the links, the step
+    variables, and the `next-batches` / `previous-batches` lists (the links followed to the end / to
+    element 1).
+Compiled templates are shared between cases, so every template is rendered again with other data.
 """
+import collections
 import itertools
 import json
+import signal
 
 import common
 
@@ -26,64 +43,176 @@ def shared_template(src):
     return t
 
 
-def observe(L, params, via_vars=False, lazy=False):
-    """Render a batched dtml-in over a sequence of length L with the real code and return
-    the observation dict."""
-    from DocumentTemplate import HTML
-    attrs = []
-    kw = {}
-    for k in ('start', 'end', 'size', 'orphan', 'overlap'):
-        v = params.get(k)
-        if v is ABSENT:
-            continue
-        if v == 'flag':           # attribute without value -> parse_params default
-            attrs.append(k)
-        elif via_vars:
-            attrs.append('%s=v_%s' % (k, k))
-            kw['v_' + k] = v
-        else:
-            attrs.append('%s=%d' % (k, v))
-    rows = []
+# ----------------------------------------------------------------------------
+# sequences
 
-    def rec(md):
-        row = {}
-        for key in ('sequence-number', 'previous-sequence', 'next-sequence',
-                    'previous-sequence-start-number', 'previous-sequence-end-number',
-                    'next-sequence-start-number', 'next-sequence-end-number',
-                    'sequence-start', 'sequence-end', 'sequence-step-size'):
-            try:
-                row[key] = md.getitem(key, 0)
-            except KeyError:
-                row[key] = None
-        rows.append(row)
-        return ''
-    src = '<dtml-in seq %s><dtml-call "rec(_)"><dtml-else>EMPTY</dtml-in>' % ' '.join(attrs)
-    seq = list(range(1, L + 1))
-    if lazy:
-        seq = iter(seq)
-    try:
-        out = shared_template(src)(seq=seq, rec=rec, **kw)
-    except Exception as e:  # noqa
-        return {'exc': type(e).__name__, 'src': src}
-    if out == 'EMPTY':
-        return {'empty': True, 'src': src}
-    nums = [r['sequence-number'] for r in rows]
-    first, last = rows[0], rows[-1]
-    return {
-        'src': src,
-        'nums': nums,
-        'prev': bool(first['previous-sequence']),
-        'pstart': first['previous-sequence-start-number'],
-        'pend': first['previous-sequence-end-number'],
-        'next': bool(last['next-sequence']),
-        'nstart': last['next-sequence-start-number'],
-        'nend': last['next-sequence-end-number'],
-        'mid_flags': any(r['previous-sequence'] for r in rows[1:]) or
-        any(r['next-sequence'] for r in rows[:-1]),
-        'startflags': [bool(r['sequence-start']) for r in rows],
-        'endflags': [bool(r['sequence-end']) for r in rows],
-        'sz': first['sequence-step-size'],
-    }
+class NegSeq:
+    """a user sequence whose indexes behave like a list's (negative ones count from the end): what lazy
+    result sets and most hand-written sequence classes do; no slicing, no iteration protocol of its own"""
+
+    def __init__(self, data):
+        self._d = list(data)
+
+    def __len__(self):
+        return len(self._d)
+
+    def __getitem__(self, i):
+        if not isinstance(i, int):
+            raise TypeError('indexes must be integers')
+        return self._d[i]
+
+
+class StrictSeq(NegSeq):
+    """a user sequence that refuses negative indexes"""
+
+    def __getitem__(self, i):
+        if not isinstance(i, int):
+            raise TypeError('indexes must be integers')
+        if i < 0:
+            raise IndexError(i)
+        return self._d[i]
+
+
+class Obj:
+    def __init__(self, k, i):
+        self.k = k
+        self.i = i
+
+    def __repr__(self):
+        return 'Obj(%r,%r)' % (self.k, self.i)
+
+
+KINDS = ('list', 'tuple', 'range', 'userlist', 'deque', 'iter', 'gen', 'negseq', 'strictseq')
+NEG_RAISES = ('iter', 'gen', 'strictseq')     # sequence[-1] raises (as the tag sees the sequence)
+ELEMS = ('int', 'pair', 'dict', 'obj')
+NOMODS = {}
+
+
+def value(i):
+    # distinct values in no monotone order (1009 is prime): a reversed or sorted display differs from the plain one
+    return (i * 7919 + 13) % 1009
+
+
+def elements(L, kind, elem):
+    if kind == 'range':
+        return list(range(7, 7 + 3 * L, 3))
+    if elem == 'pair':
+        return [(value(i), 'x%d' % i) for i in range(L)]
+    if elem == 'dict':
+        return [{'k': value(i), 'i': i} for i in range(L)]
+    if elem == 'obj':
+        return [Obj(value(i), i) for i in range(L)]
+    return [value(i) for i in range(L)]
+
+
+def container(kind, elems):
+    if kind == 'list':
+        return list(elems)
+    if kind == 'tuple':
+        return tuple(elems)
+    if kind == 'range':
+        return range(7, 7 + 3 * len(elems), 3)
+    if kind == 'userlist':
+        return collections.UserList(elems)
+    if kind == 'deque':
+        return collections.deque(elems)
+    if kind == 'iter':
+        return iter(list(elems))
+    if kind == 'gen':
+        return (x for x in list(elems))
+    if kind == 'negseq':
+        return NegSeq(elems)
+    if kind == 'strictseq':
+        return StrictSeq(elems)
+    raise ValueError(kind)
+
+
+def ident(x):
+    """what identifies a displayed element (JSON-able)"""
+    if isinstance(x, dict):
+        return x.get('i')
+    if isinstance(x, Obj):
+        return x.i
+    return x
+
+
+def sort_key(e):
+    if isinstance(e, tuple):
+        return e[0]
+    if isinstance(e, dict):
+        return e['k']
+    if isinstance(e, Obj):
+        return e.k
+    return e
+
+
+def expected_display(elems, mods):
+    """Python's own ordering of the sequence: sorted (stable, keys are distinct), then reversed.
+    Returns [(key or None, identity of the element)] in display order."""
+    seq = list(elems)
+    s = mods.get('sort')
+    if s:
+        seq = sorted(seq, key=sort_key, reverse=s in ('kdesc', 'exprdesc'))
+    if mods.get('reverse') in ('flag', 'expr1'):
+        seq = seq[::-1]
+    out = []
+    for e in seq:
+        if isinstance(e, tuple):
+            out.append((e[0], e[1]))
+        else:
+            out.append((None, ident(e)))
+    return out
+
+
+def mod_attrs(mods, kw):
+    a = []
+    if mods.get('elem') == 'dict':
+        a.append('mapping')
+    s = mods.get('sort')
+    if s == 'item':
+        a.append('sort=sequence-item')
+    elif s == 'k':
+        a.append('sort=k')
+    elif s == 'kdesc':
+        a.append('sort="k/cmp/desc"')
+    elif s in ('expr', 'exprdesc'):
+        a.append('sort_expr="sk"')
+        kw['sk'] = 'k' if s == 'expr' else 'k/cmp/desc'
+    rv = mods.get('reverse')
+    if rv == 'flag':
+        a.append('reverse')
+    elif rv in ('expr1', 'expr0'):
+        a.append('reverse_expr="rv"')
+        kw['rv'] = rv == 'expr1'
+    for flag in ('no_push_item', 'skip_unauthorized'):
+        if mods.get(flag):
+            a.append(flag)
+    if mods.get('prefix'):
+        a.append('prefix=pp')
+    if mods.get('mode'):
+        a.append(mods['mode'])       # the `next` / `previous` form of the tag
+    return a
+
+
+def neg_raises(kind, mods):
+    """does sequence[-1] raise on what the batch code probes?  (sorting / reversing hands it a list)"""
+    if mods.get('sort') or mods.get('reverse') in ('flag', 'expr1'):
+        return False
+    return kind in NEG_RAISES
+
+
+# ----------------------------------------------------------------------------
+# observation
+
+class Hang(Exception):
+    pass
+
+
+def _alarm(*a):
+    raise Hang()
+
+
+HANGS = [0]
 
 
 DEFAULTS = {'start': 1, 'end': -1, 'size': 10, 'orphan': 0, 'overlap': 1}
@@ -96,6 +225,156 @@ def eff(params, k):
     if v == 'flag':
         return DEFAULTS[k]
     return v
+
+
+def step_size(params):
+    """the batch size in force when `size` is not given (documented as 'sequence-step-size -- the batch size used').
+    Only used to decide whether the batch lists may be asked for at all (overlap < size)."""
+    size, start, end = eff(params, 'size'), eff(params, 'start'), eff(params, 'end')
+    if size >= 1:
+        return size
+    if start > 0 and end > 0 and end >= start:
+        return end + 1 - start
+    return 7
+
+
+ROW_KEYS = ('sequence-number', 'previous-sequence', 'next-sequence', 'sequence-start', 'sequence-end')
+EDGE_KEYS = ('previous-sequence-start-number', 'previous-sequence-end-number',
+             'next-sequence-start-number', 'next-sequence-end-number', 'sequence-step-size',
+             'previous-sequence-start-index', 'previous-sequence-end-index', 'previous-sequence-size',
+             'next-sequence-start-index', 'next-sequence-end-index', 'next-sequence-size',
+             'sequence-step-start-index', 'sequence-step-end-index')
+
+
+def read_batches(md, name):
+    try:
+        bl = md.getitem(name, 0)
+    except KeyError:
+        return None
+    out = []
+    for b in bl:
+        out.append([b['batch-start-number'], b['batch-end-number'], b['batch-size'],
+                    b['batch-start-index'], b['batch-end-index']])
+        if len(out) > 2000:
+            break
+    return out
+
+
+def observe(L, params, via_vars=False, lazy=False, kind=None, mods=NOMODS):
+    """Render a batched dtml-in over a sequence of length L with the real code and return
+    the observation dict."""
+    kind = kind or ('iter' if lazy else 'list')
+    attrs = []
+    kw = {}
+    for k in ('start', 'end', 'size', 'orphan', 'overlap'):
+        v = params.get(k)
+        if v is ABSENT:
+            continue
+        if v == 'flag':           # attribute without value -> parse_params default
+            attrs.append(k)
+        elif via_vars:
+            attrs.append('%s=v_%s' % (k, k))
+            if via_vars == 'str':         # request form values are strings
+                kw['v_' + k] = str(v)
+            elif via_vars == 'call':      # variables are called when looked up
+                kw['v_' + k] = (lambda v=v: v)
+            else:
+                kw['v_' + k] = v
+        else:
+            attrs.append('%s=%d' % (k, v))
+    attrs = mod_attrs(mods, kw) + attrs
+    overlap = eff(params, 'overlap')
+    # the lists of all following / preceding batches: only defined (and only finite) for overlap < size
+    lists_ok = 0 <= overlap < step_size(params)
+    rows = []
+
+    def rec(md):
+        row = {}
+        for key in ROW_KEYS:
+            try:
+                row[key] = md.getitem(key, 0)
+            except KeyError:
+                row[key] = None
+        try:
+            row['item'] = ident(md.getitem('sequence-item', 0))
+        except KeyError:
+            row['item'] = None
+        if mods.get('elem') == 'pair':
+            try:
+                row['key'] = md.getitem('sequence-key', 0)
+            except KeyError:
+                row['key'] = None
+        edge = not rows or row['sequence-end'] or row['sequence-number'] is None
+        if edge:
+            for key in EDGE_KEYS:
+                try:
+                    row[key] = md.getitem(key, 0)
+                except KeyError:
+                    row[key] = None
+            sz = row['sequence-step-size']
+            # (asked on the first and the last displayed element only: the tag keeps a list once it was computed)
+            if lists_ok and isinstance(sz, int) and sz > overlap:
+                row['nb'] = read_batches(md, 'next-batches')
+                row['pb'] = read_batches(md, 'previous-batches')
+        rows.append(row)
+        return ''
+    src = '<dtml-in seq %s><dtml-call "rec(_)"><dtml-else>EMPTY</dtml-in>' % ' '.join(attrs)
+    elems = elements(L, kind, mods.get('elem'))
+    seq = container(kind, elems)
+    old = signal.signal(signal.SIGALRM, _alarm)
+    # a rendering takes milliseconds; one that has not returned after 2 s is taken not to terminate (once a few
+    # have been seen the others are given less time, so a change that makes many of them hang cannot stall the check)
+    limit = 2.0 if HANGS[0] < 3 else 0.25
+    signal.setitimer(signal.ITIMER_REAL, limit)
+    try:
+        out = shared_template(src)(seq=seq, rec=rec, **kw)
+    except Hang:
+        HANGS[0] += 1
+        return {'exc': 'Hang (no result after %.2f s)' % limit, 'src': src}
+    except Exception as e:  # noqa
+        return {'exc': type(e).__name__, 'src': src}
+    finally:
+        signal.setitimer(signal.ITIMER_REAL, 0)
+        signal.signal(signal.SIGALRM, old)
+    touched = None
+    if kind not in ('iter', 'gen', 'range'):
+        now = list(seq._d) if isinstance(seq, NegSeq) else list(seq)
+        if len(now) != len(elems) or any(a is not b and a != b for a, b in zip(now, elems)):
+            touched = [ident(x) if not isinstance(x, tuple) else x for x in now][:20]
+    if out == 'EMPTY':
+        return {'empty': True, 'src': src, 'touched': touched}
+    if mods.get('mode'):
+        return {'src': src, 'mode': mods['mode'], 'rows': rows, 'out': out[:40], 'touched': touched}
+    if not rows:
+        return {'src': src, 'nums': [], 'out': out[:40], 'touched': touched}
+    nums = [r['sequence-number'] for r in rows]
+    first, last = rows[0], rows[-1]
+    return {
+        'src': src,
+        'nums': nums,
+        'items': [r['item'] for r in rows],
+        'keys': [r.get('key') for r in rows],
+        'prev': bool(first['previous-sequence']),
+        'pstart': first['previous-sequence-start-number'],
+        'pend': first['previous-sequence-end-number'],
+        'pidx': (first.get('previous-sequence-start-index'), first.get('previous-sequence-end-index'),
+                 first.get('previous-sequence-size')),
+        'next': bool(last['next-sequence']),
+        'nstart': last['next-sequence-start-number'],
+        'nend': last['next-sequence-end-number'],
+        'nidx': (last.get('next-sequence-start-index'), last.get('next-sequence-end-index'),
+                 last.get('next-sequence-size')),
+        'step': (first.get('sequence-step-start-index'), first.get('sequence-step-end-index')),
+        'mid_flags': any(r['previous-sequence'] for r in rows[1:]) or
+        any(r['next-sequence'] for r in rows[:-1]),
+        'startflags': [bool(r['sequence-start']) for r in rows],
+        'endflags': [bool(r['sequence-end']) for r in rows],
+        'sz': first['sequence-step-size'],
+        'lists': 'nb' in last and 'pb' in first,
+        'nb': last.get('nb'),
+        'pb': first.get('pb'),
+        'touched': touched,
+    }
 
 
 def model_req(L, params, lazy):
@@ -111,7 +390,7 @@ def compare(obs, m):
     if obs.get('empty'):
         return None  # L == 0: else branch; the model has no window
     st, e = m['start'], m['end']
-    if obs['nums'] != list(range(st, e + 1)):
+    if obs['nums'] != list(range(st, e + 1)) or not obs['nums']:
         return 'window: impl %s model %d..%d' % (obs['nums'][:20], st, e)
     if obs['prev'] != m['prev'] or obs['next'] != m['next']:
         return 'flags: impl prev=%s next=%s model prev=%s next=%s' % (
@@ -125,9 +404,148 @@ def compare(obs, m):
     return None
 
 
-def oracle(L, params, obs):
+def compare_mode(obs, m, mode):
+    """the `next` / `previous` form of the tag vs the model's links"""
+    if 'exc' in obs:
+        return 'impl raised %s' % obs['exc']
+    want = m['next'] if mode == 'next' else m['prev']
+    if bool(obs.get('empty')) == bool(want):
+        return '%s form: impl rendered=%s model %s=%s' % (mode, not obs.get('empty'), mode, want)
+    if want:
+        if not obs.get('rows'):
+            return '%s form: body not rendered' % mode
+        row = obs['rows'][0]
+        if mode == 'next':
+            got = (row['next-sequence-start-number'], row['next-sequence-end-number'])
+            exp = (m['nstart'], m['nend'])
+        else:
+            got = (row['previous-sequence-start-number'], row['previous-sequence-end-number'])
+            exp = (m['pstart'], m['pend'])
+        if got != exp:
+            return '%s form link: impl %s model %s' % (mode, got, exp)
+    return None
+
+
+# ----------------------------------------------------------------------------
+# the property
+
+def window_end(L, start, size, orphan):
+    """the window ends at start+size-1 unless fewer than orphan elements would remain after it"""
+    want = start + size - 1
+    if L - want < orphan or want > L:
+        want = L
+    return want
+
+
+def expected_window(L, params):
+    """the displayed window where the property text determines it; else None"""
+    start, end, size = eff(params, 'start'), eff(params, 'end'), eff(params, 'size')
+    if 1 <= start <= end <= L:
+        return start, end
+    if 1 <= start <= L and end <= 0 and size >= 1:
+        return start, window_end(L, start, size, eff(params, 'orphan'))
+    return None
+
+
+def check_batch_entries(L, entries, what):
+    bad = []
+    for b in entries:
+        bs, be, bsz, bsi, bei = b
+        if not (1 <= bs <= be <= L):
+            bad.append('%s: batch %s..%s outside 1..%d' % (what, bs, be, L))
+            break
+        if bsz != be - bs + 1 or bsi != bs - 1 or bei != be - 1:
+            bad.append('%s: batch %d..%d has size %s, indexes %s..%s' % (what, bs, be, bsz, bsi, bei))
+            break
+    return bad
+
+
+def check_next_list(L, e, link, nb, params):
+    """next-batches = the batches reached by following the next links from a window ending at e:
+    the first is the announced one, each starts at (end of the one before)+1-overlap, the last one ends
+    at the last element; with an explicit size each ends by the window rule."""
+    what = 'next-batches'
+    if nb is None:
+        return ['%s not defined' % what]
+    if not nb:
+        return ['%s is empty although elements %d..%d remain and next batch %s..%s is announced' % (
+            what, e + 1, L, link[0], link[1])]
+    bad = check_batch_entries(L, nb, what)
+    if bad:
+        return bad
+    if tuple(nb[0][:2]) != tuple(link):
+        bad.append('%s starts with %s..%s, announced next batch is %s..%s' % (
+            what, nb[0][0], nb[0][1], link[0], link[1]))
+    overlap, orphan, size = eff(params, 'overlap'), eff(params, 'orphan'), eff(params, 'size')
+    pe = e
+    for b in nb:
+        bs, be = b[0], b[1]
+        if bs != max(1, pe + 1 - overlap):
+            bad.append('%s: batch %d..%d does not start at %d+1-overlap(%d)' % (what, bs, be, pe, overlap))
+            break
+        if be <= pe:
+            bad.append('%s: batch %d..%d shows nothing new after %d' % (what, bs, be, pe))
+            break
+        if size >= 1 and be != window_end(L, bs, size, orphan):
+            bad.append('%s: batch %d..%d should end at %d (size %d orphan %d)' % (
+                what, bs, be, window_end(L, bs, size, orphan), size, orphan))
+            break
+        pe = be
+    else:
+        if pe != L:
+            bad.append('%s stops at %d of %d' % (what, pe, L))
+    return bad
+
+
+def check_prev_list(L, s, link, pb, params):
+    """previous-batches = the batches reached by following the previous links from a window starting at
+    s, in display order: the last is the announced one, each ends at (start of the one after)-1+overlap,
+    the first starts at element 1; with an explicit size each holds the size elements up to its end and
+    runs to element 1 when fewer than orphan elements would precede it."""
+    what = 'previous-batches'
+    if pb is None:
+        return ['%s not defined' % what]
+    if not pb:
+        return ['%s is empty although elements 1..%d precede and previous batch %s..%s is announced' % (
+            what, s - 1, link[0], link[1])]
+    bad = check_batch_entries(L, pb, what)
+    if bad:
+        return bad
+    if tuple(pb[-1][:2]) != tuple(link):
+        bad.append('%s ends with %s..%s, announced previous batch is %s..%s' % (
+            what, pb[-1][0], pb[-1][1], link[0], link[1]))
+    overlap, orphan, size = eff(params, 'overlap'), eff(params, 'orphan'), eff(params, 'size')
+    ns = s
+    for b in reversed(pb):
+        bs, be = b[0], b[1]
+        if be != min(L, ns - 1 + overlap):
+            bad.append('%s: batch %d..%d does not end at %d-1+overlap(%d)' % (what, bs, be, ns, overlap))
+            break
+        if bs >= ns:
+            bad.append('%s: batch %d..%d does not start before %d' % (what, bs, be, ns))
+            break
+        if size >= 1:
+            want = be + 1 - size
+            if want - 1 < orphan:
+                want = 1
+            if bs != want:
+                bad.append('%s: batch %d..%d should start at %d (size %d orphan %d)' % (
+                    what, bs, be, want, size, orphan))
+                break
+        ns = bs
+    else:
+        if ns != 1:
+            bad.append('%s stops at %d, element 1 is never reached' % (what, ns))
+    return bad
+
+
+def oracle(L, params, obs, kind='list', mods=NOMODS):
     """The property itself, on the implementation's observation.  Returns list of failures."""
     bad = []
+    if obs.get('touched') is not None:
+        bad.append("the caller's sequence was changed by the rendering: now %s" % (obs['touched'],))
+    if mods.get('mode'):
+        return bad + mode_oracle(L, params, obs, kind, mods)
     if L == 0:
         if not obs.get('empty'):
             bad.append('empty sequence did not render the else body: %r' % (obs,))
@@ -141,20 +559,30 @@ def oracle(L, params, obs):
         return ['nothing displayed']
     s, e = nums[0], nums[-1]
     if nums != list(range(s, e + 1)):
-        bad.append('displayed elements not contiguous: %s' % nums)
+        bad.append('displayed elements not contiguous: %s' % nums[:30])
     if not (1 <= s <= e <= L):
         bad.append('window %d..%d outside 1..%d' % (s, e, L))
+    else:
+        # the elements themselves: the window of the sequence as Python orders it
+        exp = expected_display(elements(L, kind, mods.get('elem')), mods)[s - 1:e]
+        if obs['items'] != [x[1] for x in exp] and len(nums) == e - s + 1:
+            bad.append('elements displayed at %d..%d: %s, the sequence has %s there' % (
+                s, e, obs['items'][:12], [x[1] for x in exp][:12]))
+        if mods.get('elem') == 'pair' and obs['keys'] != [x[0] for x in exp] and len(nums) == e - s + 1:
+            bad.append('sequence-key at %d..%d: %s, expected %s' % (s, e, obs['keys'][:12], [x[0] for x in exp][:12]))
     start, end, size = eff(params, 'start'), eff(params, 'end'), eff(params, 'size')
     orphan, overlap = eff(params, 'orphan'), eff(params, 'overlap')
     if 1 <= start <= L and end <= 0 and size >= 1:
-        want = start + size - 1
-        if L - want < orphan or want > L:
-            want = L
+        want = window_end(L, start, size, orphan)
         if (s, e) != (start, want):
             bad.append('start/size window: displayed %d..%d, expected %d..%d' % (s, e, start, want))
     if 1 <= start <= end <= L:
         if (s, e) != (start, end):
             bad.append('explicit window: displayed %d..%d, expected %d..%d' % (s, e, start, end))
+    if size >= 1 and obs['sz'] != size:
+        bad.append('sequence-step-size %s, size given %d' % (obs['sz'], size))
+    if obs['step'] != (s - 1, e - 1):
+        bad.append('sequence-step-start/end-index %s, displayed %d..%d' % (obs['step'], s, e))
     if obs['next'] != (e < L):
         bad.append('next-sequence=%s but end=%d len=%d' % (obs['next'], e, L))
     if obs['prev'] != (s > 1):
@@ -162,32 +590,125 @@ def oracle(L, params, obs):
     if obs['mid_flags']:
         bad.append('previous-/next-sequence true on an inner element')
     if obs['startflags'] != [i == 0 for i in range(len(nums))]:
-        bad.append('sequence-start flags %s' % obs['startflags'])
+        bad.append('sequence-start flags %s' % obs['startflags'][:30])
     if obs['endflags'] != [i == len(nums) - 1 for i in range(len(nums))]:
-        bad.append('sequence-end flags %s' % obs['endflags'])
+        bad.append('sequence-end flags %s' % obs['endflags'][:30])
     if obs['next'] and overlap >= 0:
         want = max(1, e + 1 - overlap)
         if obs['nstart'] != want:
             bad.append('next batch starts at %s, expected end+1-overlap=%d' % (obs['nstart'], want))
+        if not isinstance(obs['nstart'], int) or not isinstance(obs['nend'], int):
+            bad.append('next batch %s..%s is not a pair of numbers' % (obs['nstart'], obs['nend']))
+        elif obs['nidx'] != (obs['nstart'] - 1, obs['nend'] - 1, obs['nend'] - obs['nstart'] + 1):
+            bad.append('next-sequence-start-index/-end-index/-size %s for batch %s..%s' % (
+                obs['nidx'], obs['nstart'], obs['nend']))
     if obs['prev'] and overlap >= 0:
         want = min(L, s - 1 + overlap)
         if obs['pend'] != want:
             bad.append('previous batch ends at %s, expected start-1+overlap=%d' % (obs['pend'], want))
+        if not isinstance(obs['pstart'], int) or not isinstance(obs['pend'], int):
+            bad.append('previous batch %s..%s is not a pair of numbers' % (obs['pstart'], obs['pend']))
+        elif obs['pidx'] != (obs['pstart'] - 1, obs['pend'] - 1, obs['pend'] - obs['pstart'] + 1):
+            bad.append('previous-sequence-start-index/-end-index/-size %s for batch %s..%s' % (
+                obs['pidx'], obs['pstart'], obs['pend']))
+    if obs['lists'] and 1 <= s <= e <= L:
+        if obs['next']:
+            bad += check_next_list(L, e, (obs['nstart'], obs['nend']), obs['nb'], params)
+        elif obs['nb']:
+            bad.append('next-batches %s although nothing remains' % (obs['nb'][:4],))
+        if obs['prev']:
+            bad += check_prev_list(L, s, (obs['pstart'], obs['pend']), obs['pb'], params)
+        elif obs['pb']:
+            bad.append('previous-batches %s although nothing precedes' % (obs['pb'][:4],))
     return bad
 
 
-def tiling_oracle(L, size, orphan, overlap, lazy=False):
-    """follow next-sequence-start-number from 1; then previous from the last window."""
+def mode_oracle(L, params, obs, kind, mods):
+    """<dtml-in … next> / <dtml-in … previous>: the body is rendered exactly once, with the link variables
+    set, when a following / preceding batch exists; otherwise the else body.  Only generated for
+    parameters whose window the property determines."""
+    mode = mods['mode']
+    if 'exc' in obs:
+        return ['rendering raised %s' % obs['exc']]
+    if L == 0:
+        return [] if obs.get('empty') else ['empty sequence did not render the else body']
+    w = expected_window(L, params)
+    if w is None:
+        return []
+    s, e = w
+    overlap = eff(params, 'overlap')
+    want = (e < L) if mode == 'next' else (s > 1)
+    if obs.get('empty'):
+        if want:
+            return ['%s form rendered the else body although the window %d..%d of %d has a %s batch' % (
+                mode, s, e, L, mode)]
+        return []
+    if not want:
+        return ['%s form rendered its body although the window %d..%d of %d has no %s batch' % (mode, s, e, L, mode)]
+    rows = obs['rows']
+    if len(rows) != 1:
+        return ['%s form rendered its body %d times' % (mode, len(rows))]
+    row = rows[0]
+    bad = []
+    if (row['sequence-step-start-index'], row['sequence-step-end-index']) != (s - 1, e - 1):
+        bad.append('%s form: sequence-step-start/end-index %s..%s, window is %d..%d' % (
+            mode, row['sequence-step-start-index'], row['sequence-step-end-index'], s, e))
+    listed = 'nb' in row
+    if mode == 'next':
+        if not row['next-sequence']:
+            bad.append('next form: next-sequence not true')
+        ns, ne = row['next-sequence-start-number'], row['next-sequence-end-number']
+        if ns != max(1, e + 1 - overlap):
+            bad.append('next form: next batch starts at %s, expected end+1-overlap=%d' % (ns, max(1, e + 1 - overlap)))
+        elif not isinstance(ne, int):
+            bad.append('next form: next batch %s..%s is not a pair of numbers' % (ns, ne))
+        elif (row['next-sequence-start-index'], row['next-sequence-end-index'],
+              row['next-sequence-size']) != (ns - 1, ne - 1, ne - ns + 1):
+            bad.append('next form: -index/-size spellings disagree with %s..%s' % (ns, ne))
+        if listed:
+            bad += check_next_list(L, e, (ns, ne), row['nb'], params)
+    else:
+        if not row['previous-sequence']:
+            bad.append('previous form: previous-sequence not true')
+        ps, pe = row['previous-sequence-start-number'], row['previous-sequence-end-number']
+        if pe != min(L, s - 1 + overlap):
+            bad.append('previous form: previous batch ends at %s, expected start-1+overlap=%d' % (
+                pe, min(L, s - 1 + overlap)))
+        elif not isinstance(ps, int):
+            bad.append('previous form: previous batch %s..%s is not a pair of numbers' % (ps, pe))
+        elif (row['previous-sequence-start-index'], row['previous-sequence-end-index'],
+              row['previous-sequence-size']) != (ps - 1, pe - 1, pe - ps + 1):
+            bad.append('previous form: -index/-size spellings disagree with %s..%s' % (ps, pe))
+        if listed:
+            bad += check_prev_list(L, s, (ps, pe), row['pb'], params)
+    return bad
+
+
+def tiling_oracle(L, size, orphan, overlap, lazy=False, kind=None, mods=NOMODS, via_vars=False):
+    """follow next-sequence-start-number from 1; then previous from the last window.  The elements shown
+    along the way must be the whole sequence in (Python's) order; the batch lists announced on the first /
+    last window must be exactly the windows visited."""
+    kind = kind or ('iter' if lazy else 'list')
     bad = []
     windows = []
+    shown = []
+    first_nb = None
     start = 1
     for _ in range(L + 3):
-        obs = observe(L, {'start': start, 'size': size, 'orphan': orphan, 'overlap': overlap}, lazy=lazy)
-        if 'exc' in obs or obs.get('empty'):
+        p = {'start': start, 'size': size, 'orphan': orphan, 'overlap': overlap}
+        obs = observe(L, p, via_vars=via_vars, kind=kind, mods=mods)
+        if 'exc' in obs or obs.get('empty') or not obs['nums']:
             return ['tiling render failed at start=%d: %r' % (start, obs)], windows
         s, e = obs['nums'][0], obs['nums'][-1]
         if s != start:
             bad.append('window asked at %d starts at %d' % (start, s))
+        if windows and windows[-1][1] >= e:
+            bad.append('window %d..%d shows nothing new after %s' % (s, e, windows[-1]))
+            break
+        new = obs['items'] if not windows else obs['items'][max(0, windows[-1][1] + 1 - s):]
+        shown.extend(new)
+        if not windows:
+            first_nb = obs['nb'] if obs['lists'] else None
         windows.append((s, e))
         if not obs['next']:
             break
@@ -208,10 +729,24 @@ def tiling_oracle(L, size, orphan, overlap, lazy=False):
         covered.update(range(s, e + 1))
     if covered != set(range(1, L + 1)):
         bad.append('elements never shown: %s' % sorted(set(range(1, L + 1)) - covered))
+    want = [x[1] for x in expected_display(elements(L, kind, mods.get('elem')), mods)]
+    if not bad and shown != want:
+        bad.append('following next shows the elements %s, the sequence is %s' % (shown[:15], want[:15]))
+    if first_nb is not None and not bad and [tuple(b[:2]) for b in first_nb] != windows[1:]:
+        bad.append('next-batches of the first window %s, following next visits %s' % (
+            [tuple(b[:2]) for b in first_nb][:8], windows[1:9]))
     # previous direction
     start = windows[-1][0]
-    for _ in range(L + 3):
-        obs = observe(L, {'start': start, 'size': size, 'orphan': orphan, 'overlap': overlap})
+    visited = []
+    last_pb = None
+    for i in range(L + 3):
+        obs = observe(L, {'start': start, 'size': size, 'orphan': orphan, 'overlap': overlap},
+                      via_vars=via_vars, kind=kind, mods=mods)
+        if 'exc' in obs or obs.get('empty') or not obs['nums']:
+            bad.append('tiling render failed at start=%d: %r' % (start, obs))
+            break
+        if i == 0 and obs['lists']:
+            last_pb = obs['pb']
         if not obs['prev']:
             if obs['nums'][0] != 1:
                 bad.append('previous chain stopped at %d' % obs['nums'][0])
@@ -219,11 +754,18 @@ def tiling_oracle(L, size, orphan, overlap, lazy=False):
         if obs['pstart'] >= start:
             bad.append('previous start %s not before %d' % (obs['pstart'], start))
             break
+        visited.append((obs['pstart'], obs['pend']))
         start = obs['pstart']
     else:
         bad.append('following previous did not reach 1')
+    if last_pb is not None and not bad and [tuple(b[:2]) for b in last_pb] != visited[::-1]:
+        bad.append('previous-batches of the last window %s, following previous visits %s' % (
+            [tuple(b[:2]) for b in last_pb][:8], visited[::-1][:8]))
     return bad, windows
 
+
+# ----------------------------------------------------------------------------
+# generators
 
 def param_space(tier, r):
     starts = [ABSENT] + list(range(-1, 17))
@@ -247,17 +789,133 @@ def param_space(tier, r):
                 yield L, {'start': st, 'end': en, 'size': sz, 'orphan': orp, 'overlap': ov}
 
 
+REVERSES = (None, 'flag', 'expr1', 'expr0')
+
+
+def random_mods(r, kind, plain=0.0):
+    """a random combination of the other options of the tag (and the element type they need)"""
+    if r.random() < plain:
+        return {}
+    m = {}
+    elem = 'int' if kind == 'range' else r.choice(ELEMS)
+    if elem != 'int':
+        m['elem'] = elem
+    m['reverse'] = r.choice(REVERSES)
+    if elem in ('int', 'pair'):
+        m['sort'] = r.choice([None, None, 'item'])
+    else:
+        m['sort'] = r.choice([None, None, 'k', 'kdesc', 'expr', 'exprdesc'])
+    for flag, p in (('no_push_item', 0.15), ('skip_unauthorized', 0.15), ('prefix', 0.2)):
+        if r.random() < p:
+            m[flag] = True
+    return {k: v for k, v in m.items() if v}
+
+
+def random_params(r, L, well=False):
+    """batch parameters around a sequence of length L; `well`: start in range, size >= 1 (the window the
+    property determines), with a bias towards windows that reach the end of the sequence"""
+    p = {}
+    if well:
+        size = r.randint(1, 7)
+        p['size'] = size
+        c = r.random()
+        if c < 0.45:
+            p['start'] = max(1, min(L, L - size + r.randint(-1, 2)))
+        else:
+            p['start'] = r.randint(1, max(1, L))
+        c = r.random()
+        if c < 0.3 and L:
+            p['end'] = r.randint(p['start'], L)       # an explicit end cuts the window short
+        p['orphan'] = r.choice([ABSENT, 0, 0, 1, 2, 3, 4])
+        p['overlap'] = r.choice([ABSENT, 0, 0, 1, 2, 3])
+        return p
+    for k, lo, hi in (('start', -2, L + 4), ('end', -2, L + 4), ('size', -1, min(L + 3, 12)),
+                      ('orphan', 0, 6), ('overlap', 0, 5)):
+        c = r.random()
+        if c < 0.3:
+            p[k] = ABSENT
+        elif c < 0.35:
+            p[k] = 'flag'
+        else:
+            p[k] = r.randint(lo, hi)
+    if p['start'] is ABSENT and p['end'] is ABSENT and p['size'] is ABSENT:
+        p['size'] = r.randint(1, 5)
+    return p
+
+
+VIAS = (False, True, 'str', 'call')
+
+
+def option_cases(tier, r):
+    """containers x other options of the tag x batch windows (the deterministic part: every container with
+    every way of reversing, on the windows at the front, in the middle and at the end of the sequence)"""
+    for kind in KINDS:
+        for rv in REVERSES:
+            for srt in (None, 'item'):
+                mods = {k: v for k, v in (('reverse', rv), ('sort', srt)) if v}
+                for L in (1, 4, 10):
+                    for start in sorted({1, max(1, L - 2), L}):
+                        for size in (1, 3, 4):
+                            for orphan, overlap in ((0, 0), (2, 1)):
+                                yield (L, {'start': start, 'size': size, 'orphan': orphan, 'overlap': overlap},
+                                       r.choice(VIAS), kind, mods)
+    n = 5000 if tier == 'quick' else 60000
+    for _ in range(n):
+        L = r.choice([0, 1, 2, 3, 4, 5, 7, 9, 10, 14, 15, 40])
+        kind = r.choice(KINDS)
+        yield L, random_params(r, L, well=r.random() < 0.6), r.choice(VIAS), kind, random_mods(r, kind)
+
+
+def mode_cases(tier, r):
+    """the `next` / `previous` forms of the tag, on windows the property determines"""
+    for mode in ('next', 'previous'):
+        for L in (range(1, 8) if tier == 'quick' else range(1, 15)):
+            for start in range(1, L + 1):
+                for size in (1, 2, 3, 5):
+                    for orphan in (0, 1, 3):
+                        for overlap in (0, 1, 2):
+                            yield (L, {'start': start, 'size': size, 'orphan': orphan, 'overlap': overlap},
+                                   False, 'list', {'mode': mode})
+    n = 1500 if tier == 'quick' else 20000
+    for _ in range(n):
+        L = r.choice([1, 2, 3, 5, 7, 10, 14, 40])
+        kind = r.choice(KINDS)
+        m = random_mods(r, kind, plain=0.4)
+        m['mode'] = r.choice(('next', 'previous'))
+        yield L, random_params(r, L, well=True), r.choice(VIAS), kind, m
+
+
+def case_dict(L, p, via, kind, mods, obs=None):
+    d = {'len': L, 'params': p, 'via_vars': via, 'kind': kind, 'mods': mods}
+    if obs is not None:
+        d['src'] = obs.get('src')
+    return d
+
+
 def run(res, tier, have_driver):
     r = common.rng('C11')
     res.rule = ('exhaustive grid len 0..14 x start,end in {absent,-1..16} x size {absent,-1..7} x '
                 'orphan {absent,0..4} x overlap {absent,0..3} (quick: boundary planes + seeded 1/40 '
                 'slice), literals and variables, list and iterator; plus random larger values and '
-                'valueless attributes; non-trivial = distinct (len,params) whose window is a proper '
-                'sub-range or whose links are announced')
+                'valueless attributes.  Every case also reads the displayed ELEMENTS (must be the window '
+                'of the sequence as Python orders it), the -index/-size spellings of the links, the step '
+                'variables and, for overlap < size, the next-batches / previous-batches lists (first = '
+                'announced batch, each continues the one before, last reaches the end / element 1, ends by '
+                'the window rule).  Option cases: containers {list, tuple, range, UserList, deque, iterator, '
+                'generator, user sequence with wrap-around indexes, user sequence refusing negative indexes} '
+                'x elements {int, (key,value), mapping, instance} x {reverse, reverse_expr true/false, sort, '
+                'sort_expr, asc/desc, mapping, no_push_item, prefix, skip_unauthorized} x windows biased to '
+                'the end of the sequence; parameters as literals, int variables, numeric strings, callables; '
+                'the caller\'s sequence must be unchanged.  Mode cases: the `next` / `previous` forms of the '
+                'tag (body once iff the neighbouring batch exists, links as announced).  Tiling histories '
+                'also over containers/options, with the elements shown and the batch lists compared with '
+                'the windows visited.  Compiled templates are shared by all cases (every template is '
+                'rendered again with other data).  non-trivial = distinct (len,params,container,options) '
+                'whose window is a proper sub-range or whose links are announced')
     res.exhaustive = tier == 'thorough'
     cases = []
     for L, p in param_space(tier, r):
-        cases.append((L, p, False, False))
+        cases.append((L, p, False, 'list', NOMODS))
     # variables / lazy / flags / larger values
     n_extra = 4000 if tier == 'quick' else 40000
     for _ in range(n_extra):
@@ -274,38 +932,69 @@ def run(res, tier, have_driver):
                 p[k] = r.randint(lo, hi)
         if p['start'] is ABSENT and p['end'] is ABSENT and p['size'] is ABSENT:
             p['size'] = r.randint(1, 5)
-        cases.append((L, p, r.random() < 0.5, r.random() < 0.4))
+        cases.append((L, p, r.random() < 0.5, 'iter' if r.random() < 0.4 else 'list', NOMODS))
+    n_base = len(cases)
+    cases.extend(option_cases(tier, r))
+    n_opt = len(cases)
+    cases.extend(mode_cases(tier, r))
     reqs = []
     obss = []
-    for (L, p, via, lazy) in cases:
-        obs = observe(L, p, via_vars=via, lazy=lazy)
+    for n, (L, p, via, kind, mods) in enumerate(cases):
+        obs = observe(L, p, via_vars=via, kind=kind, mods=mods)
         obss.append(obs)
         res.evaluations += 1
         res.count('len=%s' % (L if L < 15 else '15+'))
-        res.count('via_vars' if via else 'literals')
-        res.count('lazy' if lazy else 'list')
-        for f in oracle(L, p, obs):
-            fail = {'case': {'len': L, 'params': p, 'via_vars': via, 'lazy': lazy, 'src': obs.get('src')},
-                    'what': f}
+        res.count({False: 'literals', True: 'via_vars', 'str': 'via_string_vars',
+                   'call': 'via_callable_vars'}[via])
+        res.count('lazy' if kind in ('iter', 'gen') else 'list')
+        res.count('cases_base' if n < n_base else 'cases_container_x_options' if n < n_opt
+                  else 'cases_next_previous_form')
+        if n >= n_base:
+            res.count('container=' + kind)
+            for k, v in mods.items():
+                res.count('option %s=%s' % (k, v))
+        if obs.get('lists') or any('nb' in row for row in obs.get('rows', ())):
+            res.count('batch_lists_read')
+            if obs.get('nb') or obs.get('pb'):
+                res.count('batch_lists_nonempty')
+        try:
+            fails = oracle(L, p, obs, kind, mods)
+        except Exception:  # noqa  (an observation the oracle cannot read: reported, the run goes on)
+            import traceback
+            if len(res.harness_errors) < 3:
+                res.harness_errors.append('oracle on %r:\n%s' % (case_dict(L, p, via, kind, mods, obs),
+                                                                 traceback.format_exc()))
+            fails = []
+        for f in fails:
+            fail = {'case': case_dict(L, p, via, kind, mods, obs), 'what': f}
             res.oracle_fail.append(fail)
+        key = (L, tuple(sorted((k, str(v)) for k, v in p.items())), kind,
+               tuple(sorted((k, str(v)) for k, v in mods.items())))
         if 'nums' in obs:
             if len(obs['nums']) < L or obs['prev'] or obs['next']:
-                res.nt((L, tuple(sorted((k, str(v)) for k, v in p.items()))))
-        reqs.append(model_req(L, p, lazy))
+                res.nt(key)
+        elif obs.get('rows'):
+            res.nt(key)
+        reqs.append(model_req(L, p, neg_raises(kind, mods)))
     res.sample({'len': cases[0][0], 'params': cases[0][1], 'observation': obss[0]})
-    mid = len(cases) // 2
+    mid = n_base // 2
     res.sample({'len': cases[mid][0], 'params': cases[mid][1], 'observation': obss[mid]})
-    res.sample({'len': cases[-1][0], 'params': cases[-1][1], 'observation': obss[-1]})
+    for i in (n_base - 1, n_base + 700, n_opt - 1, len(cases) - 1):
+        res.sample({'len': cases[i][0], 'params': cases[i][1], 'via_vars': cases[i][2], 'container': cases[i][3],
+                    'options': cases[i][4], 'observation': obss[i]})
     if have_driver:
         resp = common.run_driver(reqs)
-        for (L, p, via, lazy), obs, rp in zip(cases, obss, resp):
+        for (L, p, via, kind, mods), obs, rp in zip(cases, obss, resp):
             if 'ok' not in rp:
                 res.harness_errors.append('driver: %r' % (rp,))
                 break
             res.corr_checked += 1
-            d = compare(obs, rp['ok'])
+            if mods.get('mode'):
+                d = None if L == 0 else compare_mode(obs, rp['ok'], mods['mode'])
+            else:
+                d = compare(obs, rp['ok'])
             if d:
-                res.corr_mismatch.append({'case': {'len': L, 'params': p, 'via_vars': via, 'lazy': lazy},
+                res.corr_mismatch.append({'case': case_dict(L, p, via, kind, mods),
                                           'impl': obs, 'model': rp['ok'], 'diff': d})
     # tiling
     treqs, tw = [], []
@@ -316,17 +1005,27 @@ def run(res, tier, have_driver):
                 for overlap in range(0, 4):
                     if overlap >= size:
                         continue
-                    bad, windows = tiling_oracle(L, size, orphan, overlap)
-                    res.evaluations += len(windows)
-                    res.count('tiling_histories')
-                    if len(windows) > 1:
-                        res.nt(('tile', L, size, orphan, overlap))
-                    for f in bad:
-                        res.oracle_fail.append({'case': {'tiling': True, 'len': L, 'size': size,
-                                                         'orphan': orphan, 'overlap': overlap}, 'what': f})
-                    treqs.append({'op': 'follow', 'size': size, 'orphan': orphan, 'overlap': overlap,
-                                  'len': L, 'lazy': False})
-                    tw.append(windows)
+                    variants = [('list', NOMODS, False)]
+                    # the same history over another container / with other options of the tag
+                    kind = r.choice(KINDS)
+                    variants.append((kind, random_mods(r, kind, plain=0.2), r.choice(VIAS)))
+                    for kind, mods, via in variants:
+                        bad, windows = tiling_oracle(L, size, orphan, overlap, kind=kind, mods=mods, via_vars=via)
+                        res.evaluations += len(windows)
+                        res.count('tiling_histories')
+                        if mods or kind != 'list':
+                            res.count('tiling_histories_container_x_options')
+                        if len(windows) > 1:
+                            res.nt(('tile', L, size, orphan, overlap, kind,
+                                    tuple(sorted((k, str(v)) for k, v in mods.items()))))
+                        for f in bad:
+                            res.oracle_fail.append({'case': {'tiling': True, 'len': L, 'size': size,
+                                                             'orphan': orphan, 'overlap': overlap,
+                                                             'kind': kind, 'mods': mods, 'via_vars': via},
+                                                    'what': f})
+                        treqs.append({'op': 'follow', 'size': size, 'orphan': orphan, 'overlap': overlap,
+                                      'len': L, 'lazy': neg_raises(kind, mods)})
+                        tw.append(windows)
     if have_driver and treqs:
         resp = common.run_driver(treqs)
         for rq, w, rp in zip(treqs, tw, resp):
@@ -335,7 +1034,11 @@ def run(res, tier, have_driver):
                 res.corr_mismatch.append({'case': rq, 'impl': w, 'model': rp.get('ok'), 'diff': 'tiling windows'})
     res.assumptions += ['int_param / parse_params glue (literal, variable, valueless attribute) is '
                         'exercised by the correspondence run, not modelled',
-                        'sequence probes modelled as index<len (list) / SequenceFromIter semantics']
+                        'sequence probes modelled as index<len (list) / SequenceFromIter semantics',
+                        'next-batches / previous-batches are only asked for when overlap < size (outside the '
+                        'property; next-batches does not terminate there)',
+                        'sort / reverse are not modelled: the model is given the length and whether negative '
+                        'indexes raise; the order of the elements is decided by the oracle']
 
 
 def search_more(res, tier):
@@ -347,9 +1050,16 @@ def search_more(res, tier):
             continue
         obs = observe(L, p)
         for f in oracle(L, p, obs):
-            found.append({'case': {'len': L, 'params': p, 'src': obs.get('src')}, 'what': f})
+            found.append({'case': case_dict(L, p, False, 'list', NOMODS, obs), 'what': f})
         if len(found) > 5:
-            break
+            return found
+    for gen in (option_cases, mode_cases):
+        for (L, p, via, kind, mods) in gen('thorough', r):
+            obs = observe(L, p, via_vars=via, kind=kind, mods=mods)
+            for f in oracle(L, p, obs, kind, mods):
+                found.append({'case': case_dict(L, p, via, kind, mods, obs), 'what': f})
+            if len(found) > 5:
+                return found
     return found
 
 
@@ -357,12 +1067,15 @@ def replay(path):
     with open(path) as f:
         d = json.load(f)
     c = d['first']['case']
+    kind = c.get('kind') or ('iter' if c.get('lazy') else 'list')
+    mods = c.get('mods') or {}
     if c.get('tiling'):
-        bad, w = tiling_oracle(c['len'], c['size'], c['orphan'], c['overlap'])
+        bad, w = tiling_oracle(c['len'], c['size'], c['orphan'], c['overlap'], kind=kind, mods=mods,
+                               via_vars=c.get('via_vars', False))
         print(w, bad)
         return 1 if bad else 0
-    obs = observe(c['len'], c['params'], c.get('via_vars', False), c.get('lazy', False))
-    bad = oracle(c['len'], c['params'], obs)
+    obs = observe(c['len'], c['params'], c.get('via_vars', False), kind=kind, mods=mods)
+    bad = oracle(c['len'], c['params'], obs, kind, mods)
     print(obs)
     print(bad)
     return 1 if bad else 0
